@@ -16,7 +16,6 @@
 -/
 import DDProofs.DynRejectedOps
 import DDProofs.AutoImage
-import DDProofs.AutoDynTotal
 open Std
 
 namespace DD
@@ -392,21 +391,5 @@ theorem preimage_total_dyn (ext : Nat → Nat) (hS : SiftContract ext) (m : Mgr)
   | ok qn =>
     exact tryToReorder_total_dyn ext hS _
       (fun m0 hI hc _ => preimageBody_totE t s _ qn fa m0 hI hc) m hD
-
-/-! ### lifted to `dd.autoref` -/
-
-theorem image_keepsDyn (t s : Int) (rn : List (Key × Key)) (q : List Key) (fa : Bool) :
-    CoreKeeps false (image t s rn q fa) :=
-  coreKeeps_false_of_total fun ext m hD => image_total_dyn ext (siftContract ext) m hD t s rn q fa
-
-theorem preimage_keepsDyn (t s : Int) (rn : List (Key × Key)) (q : List Key) (fa : Bool) :
-    CoreKeeps false (preimage t s rn q fa) :=
-  coreKeeps_false_of_total fun ext m hD => preimage_total_dyn ext (siftContract ext) m hD t s rn q fa
-
-/-- module-level `image` / `preimage` on `Function`s, ARBITRARY arguments (ids not in use,
-`Function`s of another manager, any renaming, any `qvars`), reordering possibly enabled -/
-theorem aImage_keepsDynTotal (pre : Bool) (ht hs : Nat) (rn : List (Key × Key)) (q : List Key)
-    (fa : Bool) (h : Nat) : AKeeps false h (aImage pre ht hs rn q fa h) :=
-  aImage_keeps image_keepsDyn preimage_keepsDyn pre ht hs rn q fa h
 
 end DD
